@@ -335,6 +335,7 @@ class Verifier:
 
     def _apply_contract(self, cand, bound):
         vars_ = dict(self.base_ns)
+        vars_["caller"] = dict(self.path_env or {})     # ghost inputs of the contract under verification
         vars_.update(bound)
         env = Env(vars=vars_, glob=self.interp.builtins)
         for i, r in enumerate(cand.requires):
